@@ -91,17 +91,19 @@ class Harness:
             if pl != place:
                 continue
 
-            def tick(n: int, fn: Callable[[], None] = fn, label: str = label) -> None:
-                if self.finished or self.aborted:
-                    return
+            self.loop.call_soon(self._agent_tick, at, fn, label)
 
-                if n <= 0:
-                    self.ev("agent", label)
-                    fn()
-                else:
-                    self.loop.call_soon(tick, n - 1)
+    def _agent_tick(self, n: int, fn: Callable[[], None], label: str) -> None:
+        # (a method, not a closure: a nested function re-scheduling itself by name would
+        # be rebound to the last agent's closure by the loop above)
+        if self.finished or self.aborted:
+            return
 
-            self.loop.call_soon(tick, at)
+        if n <= 0:
+            self.ev("agent", label)
+            fn()
+        else:
+            self.loop.call_soon(self._agent_tick, n - 1, fn, label)
 
 
 class Actor:
